@@ -15,6 +15,7 @@ RULE = (
     "single-bit change of the 128-bit session key (BF3: the session_key argument; BEC2: the key held by one decryptor). faults_large: files with a payload of 4-16 KiB, byte faults and cuts at SAMPLED positions (every 61st byte and the borders of every 4 KiB stretch). Oracle: read_file with check_cmac=True "
     "must raise (any exception = error reported) or return content equal to the original: session key (BEC2) and per component description, declared length, "
     "encryption flag and blob (encrypted: blob[:declared]). Comments and unauthenticated auth-block metadata are not part of the verdict. "
+    "faults_huge: plain payloads of 64 KiB and more (lengths with and without a partial last block), byte faults in the last 18 bytes of the payload, at its start and at sampled positions in between. "
     "Non-trivial = the fault leaves the 5-byte signature intact (the structural/MAC checks decide); distinct by (base file, fault)."
 )
 ASSUMPTIONS = [
@@ -22,7 +23,7 @@ ASSUMPTIONS = [
     "a decryptor key with one flipped bit opening a container by chance (2^-24) and then also passing two MACs (2^-128) is treated as impossible",
     "base files are drawn by a seeded random.Random owned by the enumerating driver; the fault product per base file is complete",
 ]
-REQUIRED_CLASSES = ["region=opened-auth-block-value", "route=path", "route=stream", "fault=byte", "fault=cutbin", "fault=cuttext", "fault=append", "fault=keybit", "framing=bf3", "framing=bec2",
+REQUIRED_CLASSES = ["huge-plain-payload.partial-last-block", "huge-plain-payload.whole-blocks", "region=opened-auth-block-value", "route=path", "route=stream", "fault=byte", "fault=cutbin", "fault=cuttext", "fault=append", "fault=keybit", "framing=bf3", "framing=bec2",
                     "region=dirsize", "region=entry", "region=payload", "region=header", "base.last-payload-trailing00", "cut.drops-only-00", "payload>4096", "base.enc-tag=fwkey"]
 
 _BASES = {}
@@ -266,7 +267,7 @@ def check(case, rec):
 
 def _show(c):
     sk, comps = c
-    return "key=%s comps=%s" % (sk.hex() if sk else None, [(d, a, e, bl.hex()) for d, a, e, bl in comps])
+    return "key=%s comps=%s" % (sk.hex() if sk else None, [(d, a, e, bl.hex() if len(bl) <= 64 else "%s..(%d bytes, sha256 %s)" % (bl[:16].hex(), len(bl), __import__("hashlib").sha256(bl).hexdigest()[:16])) for d, a, e, bl in comps])
 
 
 def faults_for(base, b, rng):
@@ -341,6 +342,38 @@ def enum_faults_large(tier, shard, nshards, rng):
             yield dict(base=base, fault=("cutbin", pos))
 
 
+def enum_faults_huge(tier, shard, nshards, rng):
+    """firmware-sized PLAIN payloads (64 KiB and more, lengths that are and are not whole blocks): damage in the LAST bytes of the payload
+    (the final partial block), at its start and at sampled positions in between; a reader or MAC that treats long inputs differently shows
+    only here"""
+    sizes = [65536 + 5, 70001, 65536, 131072 + 9]
+    n = sizes[shard % len(sizes)] if tier == "quick" else sizes[(shard + 1) % len(sizes)] + 16 * (shard // 4)
+    brng = random.Random(rng.getrandbits(64))
+    blob = _rb(brng, n - 2) + b"\x00\x07"
+    base = dict(idx=200000 + shard, framing="bf3" if shard % 2 == 0 else "bec2", comments=[],
+                comps=[dict(desc=[(0xC3, b"\x02")], blob=blob, actual_len=None, enc=False), dict(desc=[(0xC1, b"\x00")], blob=_rb(brng, 20), actual_len=None, enc=False)])
+    base["key"] = _rb(brng, 16)
+    base["blocks"] = [] if base["framing"] == "bf3" else [dict(kind="upd", code=_rb(brng, 8), version=shard % 256)]
+    yield dict(base=base, fault=("none",))
+    try:
+        b = build(base)
+    except Violation:
+        return
+    total = len(b.binary)
+    end_first = total - 20  # the second (20-byte) payload is the last thing in the file
+    positions = set(range(end_first - 18, end_first)) | {end_first - n, end_first - n + 1, end_first - n + 15, end_first - n + 16} | set(range(end_first - n + 4099, end_first, 16411))
+    for pos in sorted(p for p in positions if 5 <= p < total):
+        old = b.binary[pos]
+        for v in sorted({old ^ (1 << brng.randrange(8)), 0 if old else 0x80}):
+            yield dict(base=base, fault=("byte", pos, v))
+
+
+def check_huge(case, rec):
+    rec.cls("huge-plain-payload" + (".partial-last-block" if len(case["base"]["comps"][0]["blob"]) % 16 else ".whole-blocks"))
+    check(case, rec)
+
+
 def parts(tier):
     return [Part("faults", check=check, enum=enum_faults, quick=(16, 0), thorough=(16, 0), exhaustive=True),
+            Part("faults_huge", check=check_huge, enum=enum_faults_huge, quick=(4, 0), thorough=(8, 0)),
             Part("faults_large", check=check, enum=enum_faults_large, quick=(8, 0), thorough=(16, 0))]
